@@ -16,6 +16,7 @@ def c17(run):
     from rules import r_file
     P = run.prog('rel')
     r_file.run(run, P)
+    r_file.run_restore_key(run, P)
     run.min_instances('R-FILE-MODE', 14)
     run.min_instances('R-PERSIST', 6)
     run.assumptions = ASSUME_COMMON + ["fopen mode strings are literals (a non-literal mode is counted and not judged)"]
@@ -174,6 +175,7 @@ def c16(run):
     from rules import r_lenread, r_uriclass, r_allocnull
     P = run.prog('rel')
     r_lenread.run(run, P)
+    r_lenread.run_outcap(run, P)
     r_uriclass.run(run, P)
     uri_funcs = set(f['name'] for f in P.lib_funcs() if f['unit'] == 'coap_uri.c')
     r_allocnull.run(run, P, only=uri_funcs)
